@@ -28,6 +28,7 @@ type cacheIn struct {
 	Disk    bool     `json:"disk,omitempty"`    // remote is a disk filespace
 	Steer   bool     `json:"steer"`             // generation avoided the triggers of listed known findings
 	Wide    *WideSpec `json:"wide,omitempty"`   // C07: the remote also has a many-entry directory "w"
+	Light   bool      `json:"light,omitempty"`  // C06: fault-free execution only (no fault enumeration): many more histories for the same time
 }
 
 func genTree(r *Rand, maxNodes int) treeSpec {
